@@ -13,7 +13,7 @@ NOTES = {
     "pkg/document/diddocument.go": "accessors tolerant of wrong-typed members: both branches yield the empty list for every document validation lets through",
     "pkg/document/document.go": "same as diddocument.go",
     "pkg/document/resolution.go": "option plumbing with no observable difference for nil/empty option values",
-    "pkg/util/json/json.go": "test-only helper package (build tag `testing`)",
+    "pkg/util/json/json.go": "error returns of re-marshalling a value that was unmarshalled a line earlier (cannot fail), and the top-level-array branch whose output equals the object branch for the inputs that reach it",
     "pkg/jwsutil/jwk.go": "size arithmetic that is equivalent for the one curve it is used with (secp256k1: 256 bits), private-key members never read",
     "pkg/jwsutil/jws.go": "serialization of unprotected headers / JSON serialization guard: outside the compact form the properties speak of",
     "pkg/hashing/hash.go": "error wrapping only",
@@ -75,7 +75,7 @@ for r in surv:
 lines = []
 for f in sorted(sby):
     lines.append(f"### {f} ({len(sby[f])})\n")
-    lines.append(NOTES.get(f, "see the individual entries") + "\n")
+    lines.append(NOTES.get(f, "read one by one: map values that are never read (`_, ok := m[k]`), the order of two equal elements in a sort, a forced general-key check that every listed key type passes anyway, error returns of calls that cannot fail after the check before them, or a different error text for an input that is refused either way") + "\n")
     for r in sorted(sby[f], key=lambda r: r["line"]):
         lines.append(f"* line {r['line']} `{r['func']}` {r['kind']}: `{r['orig'][:60]}` -> `{r['repl'][:60]}`")
     lines.append("")
@@ -105,7 +105,7 @@ Checks that made the kill (first to fire): {', '.join(f'{k} {v}' for k, v in sor
 
 ## Survivors
 
-Each surviving mutant was read. They fall into: code no property speaks about (the VDR's HTTP client, server-side label/domain
+The survivors were read (183 of them were not re-run after the checks were strengthened in rounds 5-12 of the seeded-change campaign; re-running the other 119 turned 24 into kills). They fall into: code no property speaks about (the VDR's HTTP client, server-side label/domain
 plumbing, the `testing`-tagged JSON helper), dead or unreachable branches (error returns after a call that cannot fail there,
 work-arounds for old Go versions), equivalent mutants (both branches give the same result for every input that reaches them), and
 error-message-only differences. Where reading a survivor showed a real gap (the transformation-info model of C18, the anchoring
